@@ -151,6 +151,24 @@ def scan_forbidden(files=None):
     return bad
 
 
+def closure_files(prop):
+    """.v files Props/<prop>.v depends on (transitively, via `From DJC Require Import/Export ...`)."""
+    seen, todo = [], ["Props/%s.v" % prop]
+    while todo:
+        rel = todo.pop()
+        if rel in seen or not os.path.exists(os.path.join(COQ, rel)):
+            continue
+        seen.append(rel)
+        txt = re.sub(r"\(\*.*?\*\)", "", open(os.path.join(COQ, rel)).read(), flags=re.S)
+        for m in re.finditer(r"From\s+DJC\s+Require\s+(?:Import\s+|Export\s+)?(.*?)\.(?=\s|$)", txt, flags=re.S):
+            for mod in m.group(1).split():
+                todo.append(mod.replace(".", "/") + ".v")
+        for m in re.finditer(r"Require\s+(?:Import\s+|Export\s+)?((?:DJC\.[\w.]+\s*)+)\.(?=\s|$)", txt, flags=re.S):
+            for mod in m.group(1).split():
+                todo.append(mod[4:].replace(".", "/") + ".v")
+    return sorted(seen)
+
+
 def prop_theorems(prop):
     p = os.path.join(COQ, "Props", prop + ".v")
     txt = open(p).read()
@@ -174,7 +192,7 @@ def build_proofs(prop, timeout=1500):
     res = {"checker_cmd": "cd /verif/coq && coq_makefile -f _CoqProject -o Makefile && " + cmd,
            "obligations": len(thms), "theorems": thms, "discharged": 0, "ok": rc == 0, "log_tail": out[-3000:],
            "assumptions": {}, "axioms": [], "wall_s": round(time.time() - t0, 1), "failed_at": None}
-    forb = scan_forbidden()
+    forb = scan_forbidden(closure_files(prop))
     if forb:
         res["ok"] = False
         res["failed_at"] = "forbidden construct: " + "; ".join(forb[:5])
